@@ -173,7 +173,8 @@ def watcher_filter_case(pr):
     pr.write("src/assets/logo.png", "png0")
     pr.write("src/gone.txt", "x")
     pr.mkdir("src/.zinoma")
-    t = _copy_target(ext=["txt"], extra_inputs=[{"paths": ["src/assets"], "extensions": ["png"]}])
+    pr.write("conf/settings", "s0")
+    t = _copy_target(ext=["txt"], extra_inputs=[{"paths": ["src/assets"], "extensions": ["png"]}, {"paths": ["conf"]}])
     pr.write("zinoma.yml", yml({"t": t}))
     p = _start_watch(pr, "t")
     if not _wait_builds(pr, "t", 1):
@@ -208,6 +209,12 @@ def watcher_filter_case(pr):
     pr.edit("src/assets/logo.png", "png1-longer")
     if not pr.wait_for(lambda: pr.count("s t") > n2, WAIT):
         return {"property": "C16", "expected": "a change to src/assets/logo.png (declared: paths [src/assets], extensions [png]) triggers the target", "observed": "no new start in %ss" % WAIT, "output": pr.output_of(p)[-400:]}
+    pr.wait_for(lambda: pr.count("e t") >= pr.count("s t"), WAIT)
+    time.sleep(0.5)
+    n25 = pr.count("s t")
+    pr.edit("conf/settings", "s1-longer")
+    if not pr.wait_for(lambda: pr.count("s t") > n25, WAIT):
+        return {"property": ["C16", "C06"], "expected": "a change to conf/settings (declared: paths [conf], no extension filter) triggers the target", "observed": "no new start in %ss" % WAIT, "output": pr.output_of(p)[-400:]}
     pr.wait_for(lambda: pr.count("e t") >= pr.count("s t"), WAIT)
     time.sleep(0.5)
     n3 = pr.count("s t")
@@ -437,6 +444,14 @@ def service_restart_case(pr):
     alive = [q for q in _pids(pr, "svc") if _alive(q)]
     if len(alive) > 1:
         return {"property": "C11", "expected": "at most one instance alive", "observed": "alive: %s" % alive}
+    time.sleep(0.5)
+    os.kill(p.pid, signal.SIGTERM)
+    if not pr.wait_exit(p, 8):
+        return {"property": "C10", "expected": "SIGTERM ends zinoma after service restarts", "observed": "still running after 8 s"}
+    time.sleep(0.3)
+    left = [q for q in _pids(pr, "svc") if _alive(q)]
+    if left:
+        return {"property": ["C10", "C11"], "expected": "after two restarts and SIGTERM no instance of the service is left (%d were started)" % len(_pids(pr, "svc")), "observed": "pid(s) %s still alive" % left, "output": pr.output_of(p)[-300:]}
     return None
 
 
@@ -565,6 +580,70 @@ def wide_aggregate_equiv_case(pr):
     return None
 
 
+def service_up_on_every_rebuild_case(pr):
+    """watch mode: a build depending on a service (directly and through an aggregate) finds it up on every re-build"""
+    pr.write("src/in.txt", "v0")
+    probe = 'echo "s t" >> "$ZLOG"\nsleep 0.6\nif kill -0 "$(cat svc.pid)" 2>/dev/null; then echo "up t" >> "$ZLOG"; else echo "down t" >> "$ZLOG"; fi\ncat src/in.txt > out.txt\necho "e t" >> "$ZLOG"'
+    ts = {"svc": {"service": SVC}, "g": {"dependencies": ["svc"]}, "t": {"dependencies": ["g"], "input": [{"paths": ["src"]}], "output": [{"paths": ["out.txt"]}], "build": probe}}
+    pr.write("zinoma.yml", yml(ts))
+    p = pr.spawn("--watch", "t")
+    if not _wait_builds(pr, "t", 1):
+        return None
+    for k in (1, 2):
+        time.sleep(0.6)
+        pr.edit("src/in.txt", "v%d" % k)
+        if not _wait_builds(pr, "t", k + 1):
+            return {"property": "C06", "expected": "an edit re-runs t", "observed": "log %s" % pr.log()[-6:], "output": pr.output_of(p)[-300:]}
+    if "down t" in pr.log():
+        return {"property": ["C11", "C01"], "expected": "the service t depends on is up during every (re-)build of t", "observed": "log %s" % [l for l in pr.log() if l.endswith(" t") or "svc" in l], "output": pr.output_of(p)[-400:]}
+    return None
+
+
+def service_beside_nested_aggregate_case(pr):
+    """all -> [srv (service), nest]; nest -> 40 levels of aggregates over two builds: `zinoma all` keeps running"""
+    ts = {"srv": {"service": SVC}, "b1": {"build": logging_build("b1")}, "b2": {"build": logging_build("b2")}}
+    prev = ["b1", "b2"]
+    for i in range(40):
+        ts["n%d" % i] = {"dependencies": prev}
+        prev = ["n%d" % i]
+    ts["all"] = {"dependencies": ["srv"] + prev}
+    ts["all_rev"] = {"dependencies": prev + ["srv"]}
+    pr.write("zinoma.yml", yml(ts), record=False)
+    pr.files["zinoma.yml"] = "srv: service; b1, b2: builds; n0 -> [b1, b2]; n_i -> n_(i-1) (40 levels); all -> [srv, n39]; all_rev -> [n39, srv]"
+    for root in ("all", "all_rev"):
+        p = pr.spawn(root)
+        if not pr.wait_for(lambda: pr.count("e b1") >= 1 and pr.count("e b2") >= 1 and _pids(pr, "svc"), WAIT):
+            pr.kill(p)
+            return None
+        time.sleep(2.0)
+        alive = p.poll() is None
+        if alive:
+            os.kill(p.pid, signal.SIGTERM)
+            pr.wait_exit(p, 8)
+        pr.kill(p)
+        if not alive:
+            return {"property": ["C20", "C11"], "expected": "`zinoma %s`: a service sits behind the aggregate (next to a deep aggregate over builds): zinoma stays alive like `zinoma srv b1 b2` does" % root, "observed": "zinoma exited with %s" % p.returncode, "output": pr.output_of(p)[-300:]}
+        pr.clear_log()
+        pr.remove(".zinoma")
+    return None
+
+
+def watch_dot_path_case(pr):
+    """watch mode, `paths: [.]` without filter, no .zinoma directory yet: zinoma's own state writes trigger nothing"""
+    pr.write("in.txt", "v0")
+    pr.write("zinoma.yml", yml({"t": {"input": [{"paths": ["."]}], "build": logging_build("t")}}))
+    p = pr.spawn("--watch", "t")
+    if not _wait_builds(pr, "t", 1):
+        return None
+    time.sleep(2.5)
+    n = pr.output_of(p).count(" t - Build")
+    starts = pr.count("s t")
+    if n > 2 or starts > 1:
+        # (`Building` + `Build success` = 2 lines for the one evaluation)
+        return {"property": "C16", "expected": "after the first build nothing changed but zinoma's own .zinoma directory and state file: t is not evaluated again", "observed": "%d `t - Build...` lines, %d starts" % (n, starts), "output": pr.output_of(p)[-500:]}
+    return None
+
+
 def cases(seed, tier="quick"):
     C = lambda n, fn, what: Case("live", n, fn, what)
     return [
@@ -590,6 +669,9 @@ def cases(seed, tier="quick"):
         C("service-dependency", service_dependency_case, "service only depended on: up during the build, stopped at exit"),
         C("service-shared-deep", service_shared_deep_case, "service shared by a shallow and a deep dependent"),
         C("service-restart", service_restart_case, "restart stops the old instance first"),
+        C("service-up-on-every-rebuild", service_up_on_every_rebuild_case, "the service is up on every re-build of its dependent"),
+        C("service-beside-nested-aggregate", service_beside_nested_aggregate_case, "keep-alive with a service next to a deep aggregate"),
+        C("watch-dot-path", watch_dot_path_case, "own state writes do not trigger (paths: [.])"),
         C("mixed-aggregate", mixed_aggregate_case, "dependent of an aggregate mixing a build and a service"),
         C("service-invalidated-during-dependent-build", service_invalidated_during_dependent_build_case, "service input changes while its dependent builds"),
         C("signal-during-input-command", signal_during_input_command_case("signal"), "SIGTERM while a slow cmd_stdout input runs"),
